@@ -52,7 +52,7 @@ def _unwind(n):
         "a_match": n + 2, "c10_current": n + 2, "c10_same": n + 2,
         "c10_get_data": n + 2, "c10_put_data": n + 2, "c10_data_is": n + 2, "c10_outside_same": msize + 2,
         "c10_medium_same": msize + 2, "c10_snapshot": msize + 2, "c10_begin": msize + 2,
-        "dst_guards_same": n + 6, "scenario": msize + 2, "harness": max(6, n + 3),
+        "dst_guards_same": n + 6, "scenario": max(msize + 2, 200), "harness": max(6, n + 3),
     }
 
 
